@@ -151,7 +151,8 @@ def rules(marshal, message, protocol, client):
     def handle_in_variant():
         body = b''.join(marshal.marshal('v', [marshal.UInt32(0)])[1]).replace(b'\x01u\x00', b'\x01h\x00')
         headers = [[5, marshal.UInt32(1)], [8, marshal.Signature('v')], [9, marshal.UInt32(1)]]
-        hdr = b''.join(marshal.marshal(message._headerFormat, [ord('l'), 2, 0, 1, len(body), 1, headers])[1])
+        from harness import c03_probe as _P          # message._headerFormat through public behaviour (fast path: the name)
+        hdr = b''.join(marshal.marshal(_P.header_signature(message, marshal), [ord('l'), 2, 0, 1, len(body), 1, headers])[1])
         return hdr + b'\0' * (-len(hdr) % 8) + body
 
     def p_consume():
